@@ -384,8 +384,8 @@ fn hostile<T: Hv>(name: &'static str, t: &mut Tape<'_>, o: &mut Obs) -> R {
     // truncation, uniform bytes and blind mutation are possible)
     let weights: [u32; 6] = [
         if bytes.is_empty() { 0 } else { 3 },
-        if model_ok && !m.bools.is_empty() { 2 } else { 0 },
-        if model_ok && has_utf8 { 2 } else { 0 },
+        if model_ok && !m.bools.is_empty() { 4 } else { 0 },
+        if model_ok && has_utf8 { 4 } else { 0 },
         if model_ok && !m.lens.is_empty() { 6 } else { 0 },
         3,
         3,
